@@ -230,10 +230,21 @@ class Facts:
             return None
         ok = 0 < len(ps) <= INLINE_MAX_PATHS and all(p.end in ("return", "diverge", "unreachable") for p in ps)
         if ok:
+            # a helper that assigns through a `&mut` parameter (a private setter) is seen through like any other: its write
+            # events are re-rooted at the caller's argument.  A write into a by-value parameter (a local copy) is not.
             for p in ps:
                 for e in p.events:
-                    if e[0] in ("write", "setdiscr"):
+                    if e[0] == "setdiscr":
                         ok = False
+                    if e[0] == "write":
+                        root = e[1]
+                        through_ref = False
+                        while isinstance(root, tuple) and root[0] in ("field", "deref", "index", "ref"):
+                            through_ref = through_ref or root[0] == "deref"
+                            root = root[1]
+                        lty = fn.locals[root[1]]["ty"].get("s", "") if (isinstance(root, tuple) and root[0] == "param" and isinstance(root[1], int) and root[1] < len(fn.locals)) else ""
+                        if not (through_ref and lty.startswith("&mut")):
+                            ok = False
         res = ps if ok else None
         self._inline_cache[key] = res
         return res
